@@ -473,8 +473,24 @@ fn make_plan(r: &mut StdRng, ep: u64, mode: &str) -> (Vec<ReqPlan>, Vec<Step>, u
 // ---------------------------------------------------------------------------
 type H2Sender = hyper::client::conn::http2::SendRequest<http_body_util::Full<bytes::Bytes>>;
 
+/// A client-side byte stream: plain TCP or TLS over it.
+trait ByteStream: tokio::io::AsyncRead + tokio::io::AsyncWrite + Unpin + Send {}
+impl<T: tokio::io::AsyncRead + tokio::io::AsyncWrite + Unpin + Send> ByteStream for T {}
+
+/// Certificate, key and a client that trusts them: made once per process.
+fn tls_material() -> &'static (Vec<u8>, Vec<u8>, tokio_rustls::TlsConnector) {
+    static M: std::sync::OnceLock<(Vec<u8>, Vec<u8>, tokio_rustls::TlsConnector)> = std::sync::OnceLock::new();
+    M.get_or_init(|| {
+        let ck = rcgen::generate_simple_self_signed(vec!["localhost".to_string()]).expect("self-signed certificate");
+        let mut roots = rustls::RootCertStore::empty();
+        roots.add(ck.cert.der().clone()).expect("root");
+        let cfg = rustls::ClientConfig::builder().with_root_certificates(roots).with_no_client_auth();
+        (ck.cert.pem().into_bytes(), ck.key_pair.serialize_pem().into_bytes(), tokio_rustls::TlsConnector::from(Arc::new(cfg)))
+    })
+}
+
 struct ConnState {
-    stream: Option<TcpStream>,
+    stream: Option<Box<dyn ByteStream>>,
     reader: httpc::Reader,
     port: u16,
     h2: Option<(H2Sender, tokio::task::JoinHandle<()>)>,
@@ -696,10 +712,17 @@ async fn run_episode_inner(r: &mut StdRng, ep: u64, mode: &str, given: Option<Pl
         },
         ..Default::default()
     };
-    emit("reset", json!({"episode": ep, "mode": mode, "from_spec": from_spec,
+    // a quarter of the episodes run over TLS (the HTTPS accept loop is code of its own in server.rs)
+    let tls = r.gen_bool(0.25);
+    emit("reset", json!({"episode": ep, "mode": mode, "from_spec": from_spec, "tls": tls,
         "plan": plan.iter().map(|s| format!("{:?}", s)).collect::<Vec<_>>(),
         "reqs": reqs.iter().map(|q| json!({"n": q.nonce, "conn": q.conn, "h2": q.h2, "kind": q.kind, "partial": q.partial, "fate": q.fate})).collect::<Vec<_>>()}));
-    let server = ServerBuilder::new(api, ctx.clone(), log).config(config).start().expect("server");
+    let mut builder = ServerBuilder::new(api, ctx.clone(), log).config(config);
+    if tls {
+        let (cert, key, _) = tls_material();
+        builder = builder.tls(Some(dropshot::ConfigTls::AsBytes { certs: cert.clone(), key: key.clone() }));
+    }
+    let server = builder.start().expect("server");
     let addr = server.local_addr();
     // two waiters for shutdown: tasks of their own, so that the moment each is released is what gets logged
     let mut waiters = vec![];
@@ -736,6 +759,31 @@ async fn run_episode_inner(r: &mut StdRng, ep: u64, mode: &str, given: Option<Pl
                     Ok(s) => {
                         let _ = s.set_nodelay(true);
                         conns[*c].port = port;
+                        let s: Box<dyn ByteStream> = if tls {
+                            let name = rustls::pki_types::ServerName::try_from("localhost").unwrap();
+                            // A connection the kernel accepted after the accept loop has exited is never
+                            // handshaken; that is the TLS form of "connect refused once shutdown has begun".
+                            let t = if close_called { Duration::from_millis(1500) } else { AWAIT };
+                            match tokio::time::timeout(t, tls_material().2.connect(name, s)).await {
+                                Ok(Ok(t)) => Box::new(t),
+                                Ok(Err(e)) => {
+                                    emit("connect_failed", json!({"c": format!("c{}", c), "kind": format!("tls: {}", e)}));
+                                    abandoned = true;
+                                    continue;
+                                }
+                                Err(_) => {
+                                    if close_called {
+                                        emit("connect_failed", json!({"c": format!("c{}", c), "kind": "tls handshake not served"}));
+                                    } else {
+                                        emit("tls_handshake_timeout", json!({"c": format!("c{}", c)}));
+                                    }
+                                    abandoned = true;
+                                    continue;
+                                }
+                            }
+                        } else {
+                            Box::new(s)
+                        };
                         if conn_h2[*c] {
                             let io = hyper_util::rt::TokioIo::new(s);
                             match hyper::client::conn::http2::handshake(hyper_util::rt::TokioExecutor::new(), io).await {
